@@ -730,7 +730,20 @@ theorem pausedOrIdle_not_completed (s : St) (h : isPausedOrIdle s = true) : isCo
 theorem good_prop (c : Cfg) : ∀ (f : Nat) (m : Mode) (w : World) (x : Nat), Good w (prop c f m w x).1 := by
   intro f
   induction f with
-  | zero => intro m w x; exact Good.refl w
+  | zero =>
+    intro m w x
+    cases m with
+    | update =>
+      simp only [prop, updateLocal]
+      split
+      · exact Good.refl w
+      · split
+        · exact Good.refl w
+        · exact good_taskUpdate w _ _
+    | pause => exact Good.refl w
+    | resume => exact Good.refl w
+    | belowP => exact Good.refl w
+    | belowR => exact Good.refl w
   | succ f ih =>
     intro m w x
     cases m with
